@@ -293,7 +293,7 @@ func TestC11(t *testing.T) {
 			var err error
 			w := 2 + i%3
 			withWidth(w, func() {
-				l, sz, err = builder.BuildUnixFSFile(bytes.NewReader(content), chunker, store.FramedRawEncoders(st.LinkSystem(false), hdr))
+				l, sz, err = builder.BuildUnixFSFile(bytes.NewReader(content), chunker, store.StyledEncoders(st.LinkSystem(false), hdr, i%4))
 			})
 			if err != nil {
 				c.Violation("C11|build-error", "%v", err)
@@ -303,6 +303,18 @@ func TestC11(t *testing.T) {
 			links, _ := checkSizes(c, st, linkCid(l), sz, fmt.Sprintf("file w%d %s %d bytes, raw blocks framed with a %d-byte header", w, chunker, len(content), hdr))
 			c11RawOverhead = 0
 			c.Count("builds_with_framing_encoders", 1)
+			// directories and a symlink through encoders of the same style (no framing: nothing raw is written)
+			names := gen.Names(rr, gen.FamASCII, 5+rr.Intn(40))
+			entries, _, _ := childEntries(st, names)
+			if dl, dsz, err := builder.BuildUnixFSShardedDirectory(16, multihash.MURMUR3X64_64, entries, store.StyledEncoders(st.LinkSystem(false), 0, i%4)); err == nil {
+				checkSizes(c, st, linkCid(dl), dsz, fmt.Sprintf("sharded directory through an encoder of style %d", i%4))
+			}
+			if dl, dsz, err := builder.BuildUnixFSDirectory(entries, store.StyledEncoders(st.LinkSystem(false), 0, i%4)); err == nil {
+				checkSizes(c, st, linkCid(dl), dsz, fmt.Sprintf("directory through an encoder of style %d", i%4))
+			}
+			if sl, ssz, err := builder.BuildUnixFSSymlink("some/target", store.StyledEncoders(st.LinkSystem(false), 0, i%4)); err == nil {
+				checkSizes(c, st, linkCid(sl), ssz, fmt.Sprintf("symlink through an encoder of style %d", i%4))
+			}
 			c.Sig(fmt.Sprintf("framed|w%d|links%s", w, sizeClass(links)), links >= 1)
 		})
 	}
